@@ -60,7 +60,10 @@ def evaluate(case):
         order = case.get("order")
         if order:
             allanns = [allanns[i % len(allanns)] for i in order] if False else allanns
-        out = call(annotate_citations, plain, list(reversed(allanns)) if case.get("rev") else allanns)
+        arg = list(reversed(allanns)) if case.get("rev") else allanns
+        if case.get("iter"):
+            arg = (x for x in arg)  # the parameter is typed Iterable: a one-shot iterator is a legal argument
+        out = call(annotate_citations, plain, arg)
         if isinstance(out, Raised):
             res.v("raises:" + out.bucket(), repr(out))
             return res
@@ -121,7 +124,7 @@ def evaluate(case):
         anns = [((a, b),) + sent(k) for k, (a, b) in enumerate(spans)]
         if case.get("rev"):
             anns = anns[::-1]
-        out = call(annotate_citations, plain, anns, source_text=src, unbalanced_tags="unchecked", use_dmp=True)
+        out = call(annotate_citations, plain, iter(anns) if case.get("iter") else anns, source_text=src, unbalanced_tags="unchecked", use_dmp=True)
         if isinstance(out, Raised):
             res.v("raises:" + out.bucket(), repr(out))
             return res
@@ -192,7 +195,7 @@ def _nosource(draw):
     for _ in range(draw(st.integers(0, 2))):
         a = draw(st.integers(0, n))
         extra.append([a, draw(st.integers(a, n))])
-    return {"kind": "nosource", "plain": plain, "spans": spans, "extra": extra, "rev": draw(st.booleans())}
+    return {"kind": "nosource", "plain": plain, "spans": spans, "extra": extra, "rev": draw(st.booleans()), "iter": draw(st.integers(0, 3)) == 0}
 
 
 @st.composite
@@ -210,7 +213,7 @@ def _forced(draw):
         for edge in (a, b):
             if draw(st.integers(0, 2)) == 0:
                 ins.append([edge, draw(st.integers(0, len(Q) - 1))])
-    return {"kind": "forced", "plain": plain, "ins": ins, "spans": spans, "rev": draw(st.booleans())}
+    return {"kind": "forced", "plain": plain, "ins": ins, "spans": spans, "rev": draw(st.booleans()), "iter": draw(st.integers(0, 3)) == 0}
 
 
 @st.composite
